@@ -85,7 +85,9 @@ def judge_points(ctx, mon, M, dt, shapes, sig, who):
     key = "grid.n_points"
     fr = float(M) / float(dt)
     k = T - 1
-    if cls == "integer" and fr > k and all(len(s) == 2 and s[1] == k + 2 for s in bad.values()) and len(bad) == len(shapes):
+    # the known defect is exactly: the documented expression ceil(time_horizon / dt + 1), evaluated in doubles, overshoots
+    if (cls == "integer" and fr > k and math.ceil(fr + 1) == k + 2 and all(len(s) == 2 and s[1] == k + 2 for s in bad.values())
+            and len(bad) == len(shapes)):
         key = "grid.float_ratio_above_integer"
     ctx.violation(mon, key, f"{who}: maturity {M!r} / dt {dt!r} (exact ratio {float(r)!r}, float ratio {fr!r}) gives "
                   f"{got[1] if len(got) == 2 else got} time points, expected {T}", sig=sig, maturity=M, dt=dt,
